@@ -18,6 +18,7 @@ import (
 	"os"
 	"runtime"
 	"sync"
+	"sync/atomic"
 	"time"
 
 	"github.com/hugelgupf/p9/p9"
@@ -162,6 +163,7 @@ func main() {
 		conns[i] = c
 	}
 	var reqs, reads, renames int64
+	var stuck int32
 	var cmu sync.Mutex
 	var wg sync.WaitGroup
 	for k := 0; k < *nclients; k++ {
@@ -174,6 +176,9 @@ func main() {
 			fid := func(i int) int { return 1 + k*20 + i } // fids 0..19 of this client
 			seq := 0
 			call := func(name string, v wirecodec.Values, want string) *wirecodec.Frame {
+				if atomic.LoadInt32(&stuck) != 0 {
+					return nil // a request went unanswered: the run is over, nothing more is sent
+				}
 				seq++
 				tg := tag + uint16(seq%390)
 				f, err := c.rpc(tg, name, v, *watchdog)
@@ -181,6 +186,7 @@ func main() {
 				reqs++
 				cmu.Unlock()
 				if err != nil {
+					atomic.StoreInt32(&stuck, 1)
 					finding("client %d: %v", k, err)
 					return nil
 				}
@@ -204,6 +210,7 @@ func main() {
 			call("Tmkdir", wirecodec.Values{"dfid": fid(0), "name": dir2, "mode": 0o755, "gid": 0}, "Rmkdir")
 			call("Twalk", wirecodec.Values{"fid": fid(0), "newfid": fid(1), "names": []string{dir}}, "Rwalk")
 			call("Twalk", wirecodec.Values{"fid": fid(0), "newfid": fid(2), "names": []string{dir2}}, "Rwalk")
+			call("Twalk", wirecodec.Values{"fid": fid(1), "newfid": fid(5), "names": []string{}}, "Rwalk")
 			for i := 0; i < *steps/8; i++ {
 				fn := fmt.Sprintf("f%d_%d", k, i)
 				// walk to the directory again, create a file there (the fid becomes the open file)
@@ -242,19 +249,42 @@ func main() {
 					call("Txattrwalk", wirecodec.Values{"fid": fid(3), "newfid": fid(4), "name": "user.x"}, "Rxattrwalk")
 					call("Tclunk", wirecodec.Values{"fid": fid(4)}, "Rclunk")
 				}
-				if *crossRename && rng.Intn(2) == 0 {
-					// move the file to the client's second directory and back
+				variant := 0
+				if *crossRename {
+					variant = rng.Intn(6)
+				}
+				if variant == 1 || variant == 2 {
+					// move the file to the client's second directory
 					call("Trenameat", wirecodec.Values{"olddirfid": fid(1), "oldname": fn, "newdirfid": fid(2), "newname": fn + "m"}, "Rrenameat")
 					cmu.Lock()
 					renames++
 					cmu.Unlock()
 					call("Tgetattr", wirecodec.Values{"fid": fid(3), "request_mask": []string{"mode"}}, "Rgetattr")
 					call("Tunlinkat", wirecodec.Values{"dirfd": fid(2), "name": fn + "m", "flags": 0}, "Runlinkat")
+				} else if variant == 3 {
+					// rename within the directory, named through two different fids of it
+					call("Trenameat", wirecodec.Values{"olddirfid": fid(1), "oldname": fn, "newdirfid": fid(5), "newname": fn + "s"}, "Rrenameat")
+					cmu.Lock()
+					renames++
+					cmu.Unlock()
+					call("Tgetattr", wirecodec.Values{"fid": fid(3), "request_mask": []string{"mode"}}, "Rgetattr")
+					call("Tunlinkat", wirecodec.Values{"dirfd": fid(5), "name": fn + "s", "flags": 0}, "Runlinkat")
+				} else if variant == 4 {
+					// Trename of a fid reached by a walk of two components, within its directory
+					call("Twalk", wirecodec.Values{"fid": fid(0), "newfid": fid(6), "names": []string{dir, fn}}, "Rwalk")
+					call("Trename", wirecodec.Values{"fid": fid(6), "dfid": fid(1), "name": fn + "t"}, "Rrename")
+					cmu.Lock()
+					renames++
+					cmu.Unlock()
+					call("Tgetattr", wirecodec.Values{"fid": fid(6), "request_mask": []string{"mode"}}, "Rgetattr")
+					call("Tclunk", wirecodec.Values{"fid": fid(6)}, "Rclunk")
+					call("Tunlinkat", wirecodec.Values{"dirfd": fid(1), "name": fn + "t", "flags": 0}, "Runlinkat")
 				} else {
 					call("Tunlinkat", wirecodec.Values{"dirfd": fid(1), "name": fn, "flags": 0}, "Runlinkat")
 				}
 				call("Tclunk", wirecodec.Values{"fid": fid(3)}, "Rclunk")
 			}
+			call("Tclunk", wirecodec.Values{"fid": fid(5)}, "Rclunk")
 			call("Tclunk", wirecodec.Values{"fid": fid(2)}, "Rclunk")
 			call("Tclunk", wirecodec.Values{"fid": fid(1)}, "Rclunk")
 			call("Tclunk", wirecodec.Values{"fid": fid(0)}, "Rclunk")
